@@ -77,6 +77,70 @@ Section ActInd.
     end.
 End ActInd.
 
+(* ---- keys, blocks, views *)
+
+Definition has_block (M j : Z) (m : alist entry) : Prop :=
+  exists k e, aget k m = Some e /\ inc_of M k = j.
+
+Lemma inc_of_key M j i : 0 <= i <= M -> inc_of M (key M j i) = j.
+Proof.
+  intro H. unfold inc_of, key, Span. rewrite Z.div_add_l by lia.
+  rewrite Z.div_small by lia. lia.
+Qed.
+
+Lemma key_pos M j i : 1 <= M -> 0 <= j -> 1 <= i -> 1 <= key M j i.
+Proof. intros HM Hj Hi. unfold key, Span. nia. Qed.
+
+Lemma block_nil_iff M j (m : alist entry) :
+  sorted m -> (block M j m = [] <-> ~ has_block M j m).
+Proof.
+  intro S. unfold block. split.
+  - intros E (k & e & G & I). apply aget_in in G.
+    assert (In (k, e) (filter (fun kv => inc_of M (fst kv) =? j) m)).
+    { apply filter_In. split; [exact G|]. cbn [fst]. lia. }
+    rewrite E in H. inversion H.
+  - intro N. destruct (filter (fun kv => inc_of M (fst kv) =? j) m) as [|[k e] r] eqn:F; [reflexivity|].
+    exfalso. apply N. assert (I : In (k, e) (filter (fun kv => inc_of M (fst kv) =? j) m)) by (rewrite F; left; reflexivity).
+    apply filter_In in I. destruct I as [I E]. cbn [fst] in E.
+    exists k, e. split; [apply in_aget; assumption | lia].
+Qed.
+
+Lemma view_focus s j j' : view (focus s j) j' = view s j'.
+Proof.
+  unfold focus, park.
+  destruct (Z.eq_dec j (foc s)) as [->|Nj].
+  - rewrite aget_aset_same. unfold view; cbn [foc next armed nalloc rest].
+    destruct (Z.eqb_spec j' (foc s)) as [->|N]; [reflexivity|].
+    rewrite aget_aset_other by exact N. reflexivity.
+  - rewrite aget_aset_other by exact Nj.
+    assert (V : view s j = match aget j (rest s) with Some p => p | None => (0, false, 0) end).
+    { unfold view. destruct (Z.eqb_spec j (foc s)); [contradiction | reflexivity]. }
+    destruct (aget j (rest s)) as [[[n a] c]|] eqn:G; unfold view at 1; cbn [foc next armed nalloc rest].
+    + destruct (Z.eqb_spec j' j) as [->|N]; [symmetry; exact V|].
+      unfold view. destruct (Z.eqb_spec j' (foc s)) as [->|N2].
+      * rewrite aget_aset_same. reflexivity.
+      * rewrite aget_aset_other by exact N2. reflexivity.
+    + destruct (Z.eqb_spec j' j) as [->|N]; [symmetry; exact V|].
+      unfold view. destruct (Z.eqb_spec j' (foc s)) as [->|N2].
+      * rewrite aget_aset_same. reflexivity.
+      * rewrite aget_aset_other by exact N2. reflexivity.
+Qed.
+
+Lemma focus_frame s j :
+  pending (focus s j) = pending s /\ clock (focus s j) = clock s /\ ntags (focus s j) = ntags s /\
+  cur (focus s j) = cur s /\ foc (focus s j) = j.
+Proof. unfold focus. destruct (aget j (park s)) as [[[n a] c]|]; cbn; auto. Qed.
+
+Lemma view_foc s : view s (foc s) = (next s, armed s, nalloc s).
+Proof. unfold view. rewrite Z.eqb_refl. reflexivity. Qed.
+
+(* a change of the focused incarnation's own values leaves the other views alone *)
+Lemma view_other s s' j :
+  foc s' = foc s -> rest s' = rest s -> j <> foc s -> view s' j = view s j.
+Proof.
+  intros F R N. unfold view. rewrite F, R. destruct (Z.eqb_spec j (foc s)); [contradiction | reflexivity].
+Qed.
+
 (* ------------------------------------------------------------------ configurations *)
 
 Definition cfg := (option Z * st * list ev)%type.
@@ -105,10 +169,11 @@ Section Prims.
       aget id (pending s) = Some e ->
       prim (None, s, tr) (Some id, s, tr ++ [EResp id k; ECb (e_tag e) (cls_of k)])
   | PTickOff s tr :
-      armed s = true -> pending s = [] ->
+      armed s = true -> block M (foc s) (pending s) = [] ->
       prim (None, s, tr) (None, set_armed s false, tr ++ [ETick (clock s)])
   | PTickOn s tr :
-      armed s = true -> pending s <> [] -> prim (None, s, tr) (None, s, tr ++ [ETick (clock s)])
+      armed s = true -> block M (foc s) (pending s) <> [] ->
+      prim (None, s, tr) (None, s, tr ++ [ETick (clock s)])
   | PTimeout s tr id e :
       aget id (pending s) = Some e -> (noclash tr -> e_dl e < clock s) ->
       last_marker tr = Some (ETick (clock s)) ->
@@ -116,7 +181,9 @@ Section Prims.
   | PEnd s tr id : prim (Some id, s, tr) (None, set_pending s (adel id (pending s)), tr)
   | PClock s tr dt : 0 <= dt -> prim (None, s, tr) (None, set_clock s (clock s + dt), tr)
   | PSetNext s tr v :
-      0 <= v <= M -> pending s = [] -> prim (None, s, tr) (None, set_next s v, tr).
+      0 <= v <= M -> pending s = [] -> prim (None, s, tr) (None, set_next s v, tr)
+  | PFocus s tr j : 0 <= j -> prim (None, s, tr) (None, focus s j, tr)
+  | PCrash s tr : prim (None, s, tr) (None, set_cur s (cur s + 1), tr ++ [ECrash]).
 
   Inductive istar : cfg -> cfg -> Prop :=
   | istar_refl c : istar c c
@@ -200,17 +267,18 @@ Section Prims.
   Proof.
     destruct 1 as [f s tr u p|f s tr|f s tr]; unfold ifacts, cf, cs, ct; cbn [fst snd].
     - unfold register; cbn [fst snd pending clock].
+      set (k := key M (foc s) (alloc_id M (next s))).
       split; [reflexivity|]. split; [reflexivity|]. split.
-      + intros id e' H. destruct (Z.eq_dec id (alloc_id M (next s))) as [->|N].
+      + intros id e' H. destruct (Z.eq_dec id k) as [->|N].
         * rewrite aget_aset_same in H. inv H. right. reflexivity.
         * rewrite aget_aset_other in H by exact N. left. exact H.
       + eexists. split; [reflexivity|]. split.
         * intros e I. apply in_app_or in I. destruct I as [I|I].
-          { destruct (aget (alloc_id M (next s)) (pending s)); [|inversion I].
+          { destruct (aget k (pending s)); [|inversion I].
             destruct I as [<-|[]]. reflexivity. }
           { destruct I as [<-|I]; [reflexivity|]. destruct u; [inversion I|].
             destruct I as [<-|[]]. reflexivity. }
-        * intros NC id e H. destruct (Z.eq_dec id (alloc_id M (next s))) as [->|N].
+        * intros NC id e H. destruct (Z.eq_dec id k) as [->|N].
           { exfalso. rewrite H in NC. eapply NC. left. reflexivity. }
           { rewrite aget_aset_other by exact N. exact H. }
     - split; [reflexivity|]. split; [reflexivity|]. split; [auto|].
@@ -303,19 +371,20 @@ Section Prims.
         intros id' I NC. apply Hexp; [right; exact I | exact NC].
   Qed.
 
-  Lemma expired_in s id : In id (expired_ids s) ->
+  Lemma expired_in s id : In id (expired_ids M s) ->
     exists e, aget id (pending s) = Some e /\ e_dl e < clock s.
   Proof.
     unfold expired_ids. intro I. apply filter_In in I. destruct I as [_ E].
-    unfold expired_b in E. destruct (aget id (pending s)) as [e|]; [|discriminate].
+    unfold expired_b in E. apply andb_true_iff in E. destruct E as [_ E].
+    destruct (aget id (pending s)) as [e|]; [|discriminate].
     exists e. split; [reflexivity | lia].
   Qed.
 
   Lemma order_spec h s :
-    NoDup (order h s) /\ forall id, In id (order h s) -> In id (expired_ids s).
+    NoDup (order M h s) /\ forall id, In id (order M h s) -> In id (expired_ids M s).
   Proof.
     unfold order. destruct (dedup_spec
-      (flat_map (fun t => filter (fun id => tag_is s id t) (expired_ids s)) h ++ expired_ids s) [])
+      (flat_map (fun t => filter (fun id => tag_is s id t) (expired_ids M s)) h ++ expired_ids M s) [])
       as [N S].
     split; [exact N|]. intros id I. destruct (S id I) as [I1 _].
     apply in_app_or in I1. destruct I1 as [I1|I1]; [|exact I1].
@@ -326,11 +395,11 @@ Section Prims.
     star (None, s, tr) (None, fst (tick M s h), tr ++ snd (tick M s h)).
   Proof.
     unfold tick. destruct (armed s) eqn:A; cbn [fst snd].
-    - unfold check_expired. destruct (pending s) as [|x m] eqn:P; cbn [isnil fst snd].
+    - unfold check_expired. destruct (block M (foc s) (pending s)) as [|x m] eqn:P; cbn [isnil fst snd].
       + apply star_one. apply PTickOff; assumption.
       + eapply star_step; [apply PTickOn; [exact A | rewrite P; discriminate]|].
-        change (tr ++ ETick (clock s) :: snd (fire_all M s (order h s)))
-          with (tr ++ [ETick (clock s)] ++ snd (fire_all M s (order h s))).
+        change (tr ++ ETick (clock s) :: snd (fire_all M s (order M h s)))
+          with (tr ++ [ETick (clock s)] ++ snd (fire_all M s (order M h s))).
         rewrite app_assoc. destruct (order_spec h s) as [N S].
         apply fire_all_star; [exact N| |].
         * intros id I _. apply expired_in. apply S. exact I.
@@ -338,18 +407,76 @@ Section Prims.
     - apply star_one. apply PMark. right. reflexivity.
   Qed.
 
+  Lemma tick_all_star js : forall s tr h,
+    Forall (fun j => 0 <= j) js ->
+    star (None, s, tr) (None, fst (tick_all M s js h), tr ++ snd (tick_all M s js h)).
+  Proof.
+    induction js as [|j r IH]; intros s tr h F; cbn [tick_all fst snd].
+    - rewrite app_nil_r. constructor.
+    - inv F. eapply star_step; [apply (PFocus s tr j); assumption|].
+      rewrite app_assoc. eapply star_trans; [apply tick_star | apply IH; assumption].
+  Qed.
+
+  Lemma incs_nonneg s : Forall (fun j => 0 <= j) (incs s).
+  Proof. unfold incs. apply Forall_forall. intros j I. apply in_map_iff in I. destruct I as (n & <- & _). lia. Qed.
+
+  (* what a primitive does to the incarnation counter *)
+  Lemma prim_cur c c' : prim c c' -> 0 <= cur (cs c) -> 0 <= cur (cs c').
+  Proof.
+    intros P H.
+    destruct P as [c c' P|s tr m Hm|s tr id k G|s tr id k e G|s tr Ar Pe|s tr Ar Pn|s tr id e G D LM
+                   |s tr id|s tr dt Hd|s tr v Hv Pe|s tr j Hj|s tr]; unfold cs in *; cbn [fst snd] in *;
+      try exact H.
+    - destruct P; cbn [fst snd register cur set_ntags] in *; exact H.
+    - destruct (focus_frame s j) as (_ & _ & _ & C & _). rewrite C. exact H.
+    - cbn [set_cur cur]. lia.
+  Qed.
+
+  Lemma star_cur c c' : star c c' -> 0 <= cur (cs c) -> 0 <= cur (cs c').
+  Proof. induction 1 as [c|a b c Hab _ IH]; intro H; [exact H | apply IH; eapply prim_cur; eassumption]. Qed.
+
+  Lemma tick_all_cur js : forall s h, cur (fst (tick_all M s js h)) = cur s.
+  Proof.
+    assert (IS : forall c c', istar c c' -> cur (cs c') = cur (cs c)).
+    { induction 1 as [c|c1 c2 c3 H1 _ IH2]; [reflexivity|]. rewrite IH2.
+      destruct H1; unfold cs; cbn [fst snd register cur set_ntags]; reflexivity. }
+    assert (FA : forall ids s0, cur (fst (fire_all M s0 ids)) = cur s0).
+    { induction ids as [|i r IH]; intro s0; cbn [fire_all fst]; [reflexivity|]. rewrite IH.
+      unfold fire. destruct (aget i (pending s0)) as [e|]; cbn [fst set_pending cur]; [|reflexivity].
+      apply (IS _ _ (exec_prog_istar (e_prog e) None s0 [])). }
+    induction js as [|j r IH]; intros s h; cbn [tick_all fst]; [reflexivity|].
+    rewrite IH. destruct (focus_frame s j) as (_ & _ & _ & C & _). rewrite <- C.
+    generalize (focus s j). intro s0. unfold tick. destruct (armed s0); [|reflexivity]. cbn [fst].
+    unfold check_expired. destruct (isnil (block M (foc s0) (pending s0))); [reflexivity | apply FA].
+  Qed.
+
+  Lemma tick_op_star s tr h :
+    0 <= cur s ->
+    star (None, s, tr) (None, fst (tick_op M s h), tr ++ snd (tick_op M s h)).
+  Proof.
+    intro C. unfold tick_op. cbn [fst snd].
+    eapply star_trans; [apply tick_all_star, incs_nonneg|]. apply star_one. apply PFocus. exact C.
+  Qed.
+
+  Lemma tick_op_cur s h : cur (fst (tick_op M s h)) = cur s.
+  Proof.
+    unfold tick_op. cbn [fst]. destruct (focus_frame (fst (tick_all M s (incs s) h)) (cur s)) as (_ & _ & _ & C & _).
+    rewrite C. apply tick_all_cur.
+  Qed.
+
   Lemma step_star s tr o :
+    0 <= cur s ->
     star (None, s, tr) (None, fst (step M s o), tr ++ snd (step M s o)).
   Proof.
-    destruct o as [a|id k| |id|h|h|dt|v|v|u]; cbn [step fst snd].
+    intro HC. destruct o as [a|id k| |id|h|h|dt|v|v|u|]; cbn [step fst snd].
     - eapply star_step; [apply PMark; left; reflexivity|].
       change (tr ++ EDo :: snd (exec M a s)) with (tr ++ [EDo] ++ snd (exec M a s)).
       rewrite app_assoc. apply istar_star. apply exec_is_chain.
     - apply handle_resp_star.
     - apply star_one. apply PMark. right. reflexivity.
     - apply star_one. apply PMark. right. reflexivity.
-    - apply tick_star.
-    - rewrite app_assoc. eapply star_trans; apply tick_star.
+    - apply tick_op_star. exact HC.
+    - rewrite app_assoc. eapply star_trans; apply tick_op_star; [exact HC | rewrite tick_op_cur; exact HC].
     - eapply star_step; [apply PMark; right; reflexivity|].
       destruct (0 <=? dt) eqn:E; [|constructor].
       apply star_one. apply PClock. lia.
@@ -359,14 +486,21 @@ Section Prims.
       apply PSetNext; [lia|]. destruct (pending s); [reflexivity | discriminate].
     - apply star_one. apply PMark. right. reflexivity.
     - apply star_one. apply PMark. right. reflexivity.
+    - unfold crash. cbn [fst snd]. eapply star_step; [apply (PFocus s tr (cur s + 1)); lia|].
+      replace (set_cur (focus s (cur s + 1)) (cur s + 1))
+        with (set_cur (focus s (cur s + 1)) (cur (focus s (cur s + 1)) + 1)).
+      + apply star_one. apply PCrash.
+      + f_equal. unfold focus. destruct (aget (cur s + 1) (park s)) as [[[n a] c]|]; reflexivity.
   Qed.
 
   Lemma run_star ops : forall s tr,
+    0 <= cur s ->
     star (None, s, tr) (None, fst (run_from M s ops), tr ++ concat (snd (run_from M s ops))).
   Proof.
-    induction ops as [|o r IH]; intros s tr; cbn [run_from fst snd concat].
+    induction ops as [|o r IH]; intros s tr HC; cbn [run_from fst snd concat].
     - rewrite app_nil_r. constructor.
-    - rewrite app_assoc. eapply star_trans; [apply step_star | apply IH].
+    - rewrite app_assoc. pose proof (step_star s tr o HC) as S1.
+      eapply star_trans; [exact S1 | apply IH]. apply (star_cur _ _ S1). exact HC.
   Qed.
 
   (* the generic invariant rule *)
@@ -382,7 +516,7 @@ Section Prims.
     forall ops, I (None, final_g M ops, trace_g M ops).
   Proof.
     intros HP H0 ops. unfold final_g, trace_g.
-    eapply star_inv; [exact HP | apply (run_star ops init []) | exact H0].
+    eapply star_inv; [exact HP | apply (run_star ops init []); cbn; lia | exact H0].
   Qed.
 End Prims.
 
@@ -939,7 +1073,8 @@ Qed.
 Lemma acc_idle_inv a a' tr e :
   AInv a tr -> mtail a = [] -> acc_idle a e = Some a' -> AInv a' (tr ++ [e]).
 Proof.
-  intros H MT S. destruct e as [| |id k|now|t id n|id sp|id t|t|t c|id]; cbn [acc_idle] in S.
+  intros H MT S. destruct e as [| | |id k|now|t id n|id sp|id t|t|t c|id]; cbn [acc_idle] in S.
+  - inv S. apply (AInv_keep a); cbn [a_open a_nt a_tick a_mode]; auto; try lia; try discriminate.
   - inv S. apply (AInv_keep a); cbn [a_open a_nt a_tick a_mode]; auto; try lia; try discriminate.
   - inv S. apply (AInv_keep a); cbn [a_open a_nt a_tick a_mode]; auto; try lia; try discriminate.
   - inv S. apply (AInv_keep a); cbn [a_open a_nt a_tick a_mode]; auto; try lia; try discriminate.
@@ -1162,31 +1297,102 @@ Section Sim.
   Hypothesis M_pos : 1 <= M.
 
   Definition base (c : cfg) : Prop :=
-    sorted (pending (cs c)) /\ 0 <= next (cs c) <= M /\
-    (pending (cs c) <> [] -> armed (cs c) = true).
+    sorted (pending (cs c)) /\
+    (forall j, 0 <= next_of (cs c) j <= M) /\
+    (forall j, has_block M j (pending (cs c)) -> armed_of (cs c) j = true) /\
+    0 <= foc (cs c) /\ 0 <= cur (cs c).
 
   Definition Sim (c : cfg) : Prop := base c /\ (noclash (ct c) -> exists a, Rel c a).
 
   Lemma alloc_range n : 0 <= n <= M -> 1 <= alloc_id M n <= M.
   Proof. unfold alloc_id. intro H. destruct (Z.leb_spec M n); lia. Qed.
 
-  Lemma adel_nil_inv {V} id (m : alist V) : adel id m <> [] -> m <> [].
-  Proof. destruct m; [simpl; auto | discriminate]. Qed.
+  Lemma next_of_foc s : next_of s (foc s) = next s.
+  Proof. unfold next_of. rewrite view_foc. reflexivity. Qed.
+
+  Lemma armed_of_foc s : armed_of s (foc s) = armed s.
+  Proof. unfold armed_of. rewrite view_foc. reflexivity. Qed.
+
+  (* the views of a state that differs from s only in the focused incarnation's own values *)
+  Lemma views_upd s s' :
+    foc s' = foc s -> rest s' = rest s ->
+    forall j, view s' j = if j =? foc s then (next s', armed s', nalloc s') else view s j.
+  Proof.
+    intros F R j. destruct (Z.eqb_spec j (foc s)) as [->|N].
+    - rewrite <- F. apply view_foc.
+    - apply view_other; assumption.
+  Qed.
+
+  Lemma base_upd s s' :
+    sorted (pending s') -> foc s' = foc s -> rest s' = rest s -> cur s' = cur s ->
+    0 <= next s' <= M ->
+    (forall j, has_block M j (pending s') -> j <> foc s -> has_block M j (pending s)) ->
+    (has_block M (foc s) (pending s') -> armed s' = true) ->
+    forall f tr f' tr', base (f, s, tr) -> base (f', s', tr').
+  Proof.
+    intros S' F R C N HB HA f tr f' tr' (S & Rg & A & Fo & Cu). unfold base, cs in *; cbn [fst snd] in *.
+    split; [exact S'|]. split; [|split; [|split; [rewrite F; exact Fo | rewrite C; exact Cu]]].
+    - intro j. unfold next_of. rewrite (views_upd s s' F R j).
+      destruct (Z.eqb_spec j (foc s)); [exact N | apply Rg].
+    - intros j H. unfold armed_of. rewrite (views_upd s s' F R j).
+      destruct (Z.eqb_spec j (foc s)) as [->|Ne]; [apply HA; exact H | apply A; apply HB; assumption].
+  Qed.
 
   Lemma base_prim c c' : prim M c c' -> base c -> base c'.
   Proof.
-    intros P (S & R & A). unfold base.
+    intros P B.
     destruct P as [c c' P|s tr m Hm|s tr id k G|s tr id k e G|s tr Ar Pe|s tr Ar Pn|s tr id e G D LM
-                   |s tr id|s tr dt Hd|s tr v Hv Pe]; unfold cs in *; cbn [fst snd] in *;
-      try (split; [exact S | split; [exact R | exact A]]).
-    - destruct P as [f s tr u p|f s tr|f s tr]; cbn [fst snd register pending next armed set_ntags] in *.
-      + split; [apply sorted_aset; exact S|]. split; [pose proof (alloc_range _ R); lia | reflexivity].
+                   |s tr id|s tr dt Hd|s tr v Hv Pe|s tr j Hj|s tr];
+      try exact B.
+    - destruct P as [f s tr u p|f s tr|f s tr].
+      + pose proof B as (S & Rg & A & Fo & Cu). unfold cs in *; cbn [fst snd] in *.
+        pose proof (Rg (foc s)) as R0. rewrite next_of_foc in R0. pose proof (alloc_range _ R0) as Hid.
+        eapply base_upd; [| | | | | | |exact B]; unfold register; cbn [fst snd pending foc rest cur next armed];
+          try reflexivity.
+        * apply sorted_aset; exact S.
+        * lia.
+        * intros j (k & e & G & I) Ne.
+          destruct (Z.eq_dec k (key M (foc s) (alloc_id M (next s)))) as [->|Nk].
+          { rewrite inc_of_key in I by lia. congruence. }
+          { rewrite aget_aset_other in G by exact Nk. exists k, e. auto. }
+      + exact B.
+      + eapply base_upd; [| | | | | | |exact B]; cbn [fst snd set_ntags pending foc rest cur next armed]; try reflexivity.
+        * apply B.
+        * destruct B as (_ & Rg & _). specialize (Rg (foc s)). rewrite next_of_foc in Rg. exact Rg.
+        * auto.
+        * destruct B as (_ & _ & A & _). intro H. specialize (A _ H). rewrite armed_of_foc in A. exact A.
+    - (* tick off *)
+      pose proof B as (S & Rg & A & Fo & Cu). unfold cs in *; cbn [fst snd] in *.
+      eapply base_upd; [| | | | | | |exact B]; cbn [set_armed pending foc rest cur next armed]; try reflexivity.
+      + exact S.
+      + specialize (Rg (foc s)). rewrite next_of_foc in Rg. exact Rg.
       + auto.
+      + intro H. exfalso. apply (proj1 (block_nil_iff M (foc s) (pending s) S) Pe). exact H.
+    - (* end of a callback *)
+      pose proof B as (S & Rg & A & Fo & Cu). unfold cs in *; cbn [fst snd] in *.
+      eapply base_upd; [| | | | | | |exact B]; cbn [set_pending pending foc rest cur next armed]; try reflexivity.
+      + apply sorted_adel; exact S.
+      + specialize (Rg (foc s)). rewrite next_of_foc in Rg. exact Rg.
+      + intros j (k & e & G & I) _. destruct (Z.eq_dec k id) as [->|Nk]; [rewrite aget_adel_same in G; discriminate|].
+        rewrite aget_adel_other in G by exact Nk. exists k, e. auto.
+      + intros (k & e & G & I). destruct (Z.eq_dec k id) as [->|Nk]; [rewrite aget_adel_same in G; discriminate|].
+        rewrite aget_adel_other in G by exact Nk. rewrite <- armed_of_foc. apply A. exists k, e. auto.
+    - (* set next *)
+      pose proof B as (S & Rg & A & Fo & Cu). unfold cs in *; cbn [fst snd] in *.
+      eapply base_upd; [| | | | | | |exact B]; cbn [set_next pending foc rest cur next armed]; try reflexivity.
+      + exact S.
+      + lia.
       + auto.
-    - cbn [set_armed pending next armed]. split; [exact S|]. split; [exact R|]. intro N. contradiction.
-    - cbn [set_pending pending next armed]. split; [apply sorted_adel; exact S|]. split; [exact R|].
-      intro N. apply A. eapply adel_nil_inv. exact N.
-    - cbn [set_next pending next armed]. split; [exact S|]. split; [lia | exact A].
+      + rewrite Pe. intros (k & e & G & _). discriminate.
+    - (* focus *)
+      destruct B as (S & Rg & A & Fo & Cu). unfold base, cs in *; cbn [fst snd] in *.
+      destruct (focus_frame s j) as (P & _ & _ & C & F). rewrite P, C, F.
+      split; [exact S|]. split; [|split; [|split; assumption]].
+      + intro j'. unfold next_of. rewrite view_focus. apply Rg.
+      + intros j' H. unfold armed_of. rewrite view_focus. apply A. exact H.
+    - (* restart *)
+      destruct B as (S & Rg & A & Fo & Cu). unfold base, cs in *; cbn [fst snd set_cur pending foc cur] in *.
+      split; [exact S|]. split; [exact Rg|]. split; [exact A|]. split; [exact Fo | lia].
   Qed.
 
   Lemma acc_snoc a tr e a' :
@@ -1199,16 +1405,18 @@ Section Sim.
   Lemma rel_prim c c' a :
     prim M c c' -> base c -> noclash (ct c') -> Rel c a -> exists a', Rel c' a'.
   Proof.
-    intros P B NC R. destruct B as (S & Rg & _).
+    intros P B NC R. destruct B as (S & Rg & _ & Fo & _).
     pose proof (acc_from_inv (ct c) a0 [] a AInv_init (r_acc _ _ R)) as AI. cbn [app] in AI.
     destruct R as [Racc Ridle Rnt Rtick Ropen Rfl].
     destruct P as [c c' P|s tr m Hm|s tr id k G|s tr id k e G|s tr Ar Pe|s tr Ar Pn|s tr id e G D LM
-                   |s tr id|s tr dt Hd|s tr v Hv Pe]; unfold cs, ct, cf in *; cbn [fst snd] in *.
+                   |s tr id|s tr dt Hd|s tr v Hv Pe|s tr j Hj|s tr]; unfold cs, ct, cf in *; cbn [fst snd] in *.
     - destruct P as [f s tr u p|f s tr|f s tr]; cbn [fst snd] in *.
       + (* register *)
         unfold register in *; cbn [fst snd] in *.
-        set (id := alloc_id M (next s)) in *. set (t := ntags s) in *.
-        assert (Hid : 1 <= id <= M) by (apply alloc_range; exact Rg).
+        set (id := key M (foc s) (alloc_id M (next s))) in *. set (t := ntags s) in *.
+        assert (Hid : 1 <= id).
+        { pose proof (Rg (foc s)) as R0. rewrite next_of_foc in R0. pose proof (alloc_range _ R0).
+          apply key_pos; lia. }
         apply noclash_app in NC. destruct NC as [_ NC]. apply noclash_app in NC. destruct NC as [NC _].
         assert (G : aget id (pending s) = None).
         { destruct (aget id (pending s)) eqn:E; [|reflexivity]. exfalso. eapply NC. left. reflexivity. }
@@ -1329,6 +1537,14 @@ Section Sim.
       + intros id' E. discriminate.
     - exists a. constructor; unfold cs, ct, cf; cbn [fst snd set_clock pending ntags]; auto.
     - exists a. constructor; unfold cs, ct, cf; cbn [fst snd set_next pending ntags]; auto.
+    - (* focus *)
+      destruct (focus_frame s j) as (P & _ & T & _).
+      exists a. constructor; unfold cs, ct, cf; cbn [fst snd]; rewrite ?P, ?T; auto.
+    - (* restart *)
+      exists (mkA (a_open a) (a_nt a) None MIdle).
+      constructor; unfold cs, ct, cf; cbn [fst snd a_open a_nt a_tick a_mode set_cur pending ntags]; auto.
+      + apply acc_snoc with (a := a); [exact Racc|]. unfold acc_step. rewrite Ridle. reflexivity.
+      + rewrite last_marker_snoc. reflexivity.
   Qed.
 End Sim.
 
@@ -1336,7 +1552,7 @@ End Sim.
 
 Lemma prim_trace M c c' : prim M c c' -> exists o, ct c' = ct c ++ o.
 Proof.
-  destruct 1 as [c c' P| | | | | | | | | ]; unfold ct; cbn [snd];
+  destruct 1 as [c c' P| | | | | | | | | | | ]; unfold ct; cbn [snd];
     try (eexists; reflexivity); try (exists []; rewrite app_nil_r; reflexivity).
   destruct P; cbn [snd]; eexists; reflexivity.
 Qed.
@@ -1401,7 +1617,9 @@ Section Final.
   Lemma sim_init : Sim M (None, init, []).
   Proof.
     split.
-    - unfold base, cs; cbn. split; [exact I|]. split; [lia | intro N; contradiction].
+    - unfold base, cs; cbn [fst snd init pending foc cur].
+      split; [exact I|]. split; [intro j; unfold next_of, view; cbn; destruct (j =? 0); cbn; lia|].
+      split; [intros j (k & e & G & _); discriminate | lia].
     - intros _. exists a0. constructor; unfold cs, ct, cf; cbn; auto. intros id E. discriminate.
   Qed.
 
@@ -1451,12 +1669,18 @@ Section Final.
     rewrite <- (map_length fst (pending (final_g M ops))), <- K, map_length. reflexivity.
   Qed.
 
-  (* timer: armed whenever anything is pending, in every reachable state, clash or not *)
-  Theorem timer_armed ops : pending (final_g M ops) <> [] -> armed (final_g M ops) = true.
-  Proof. destruct (sim_run ops) as [(_ & _ & A) _]. exact A. Qed.
+  (* timer: the timer of an incarnation is armed whenever one of its requests is pending, in
+     every reachable state, clash or not - also long after the incarnation was replaced *)
+  Theorem timer_armed ops j k e :
+    aget k (pending (final_g M ops)) = Some e -> inc_of M k = j ->
+    armed_of (final_g M ops) j = true.
+  Proof. intros G I. destruct (sim_run ops) as [(_ & _ & A & _) _]. apply A. exists k, e. auto. Qed.
 
-  Theorem next_range ops : 0 <= next (final_g M ops) <= M.
-  Proof. destruct (sim_run ops) as [(_ & R & _) _]. exact R. Qed.
+  Theorem next_range ops j : 0 <= next_of (final_g M ops) j <= M.
+  Proof. destruct (sim_run ops) as [(_ & R & _) _]. apply R. Qed.
+
+  Theorem base_run ops : base M (None, final_g M ops, trace_g M ops).
+  Proof. destruct (sim_run ops) as [B _]. exact B. Qed.
 End Final.
 
 (* discard and frame: state level, any state *)
@@ -1535,7 +1759,7 @@ Section Scan.
     intros A id e. unfold tick. rewrite A. cbn [fst]. unfold check_expired.
     destruct (pending s) as [|x m] eqn:P; cbn [isnil fst].
     - cbn [set_armed pending]. rewrite P. discriminate.
-    - destruct (fire_all_facts (order h s) s) as (_ & _ & K). apply K.
+    - destruct (fire_all_facts (order M h s) s) as (_ & _ & K). apply K.
       intros id' e' H L. unfold order. apply dedup_complete; [|intros []].
       apply in_or_app. right. unfold expired_ids. apply filter_In. split.
       + apply aget_in in H. apply (in_map fst) in H. exact H.
@@ -2107,13 +2331,13 @@ Section Rehint.
 
   Lemma order_rehint s h :
     sorted (pending s) -> tags_distinct s ->
-    order (map (tag_at s) (order h s)) s = order h s.
+    order M (map (tag_at s) (order M h s)) s = order M h s.
   Proof.
     intros S D. destruct (order_spec h s) as [ND Sub].
-    assert (NE : NoDup (expired_ids s)).
+    assert (NE : NoDup (expired_ids M s)).
     { unfold expired_ids. apply NoDup_filter. apply sorted_nodup_keys. exact S. }
     unfold order at 1. rewrite flat_map_concat_map, map_map, <- flat_map_concat_map.
-    rewrite (flat_map_singleton (fun id => filter (fun id' => tag_is s id' (tag_at s id)) (expired_ids s))).
+    rewrite (flat_map_singleton (fun id => filter (fun id' => tag_is s id' (tag_at s id)) (expired_ids M s))).
     - apply dedup_app_self; [exact ND | intros x _ [] |].
       intros x I. left. unfold order. apply dedup_complete; [|intros []]. apply in_or_app. right. exact I.
     - intros id I. apply filter_singleton; [exact NE | apply Sub; exact I|].
@@ -2131,8 +2355,8 @@ Section Rehint.
     intros S D NC. unfold tick in *. destruct (armed s); [|reflexivity]. cbn [snd fst] in *.
     unfold check_expired in *. destruct (isnil (pending s)); [reflexivity|].
     cbn [timeout_tags].
-    change (ETick (clock s) :: snd (fire_all M s (order h s)))
-      with ([ETick (clock s)] ++ snd (fire_all M s (order h s))) in NC.
+    change (ETick (clock s) :: snd (fire_all M s (order M h s)))
+      with ([ETick (clock s)] ++ snd (fire_all M s (order M h s))) in NC.
     apply noclash_app in NC. destruct NC as [_ NC].
     destruct (order_spec h s) as [ND Sub].
     rewrite fire_all_tags; [|exact ND| |exact NC].
@@ -2145,8 +2369,8 @@ Section Rehint.
   Proof.
     destruct (tick_shape M s h) as [(A & _)|(A & E)].
     - set (s1 := fst (tick M s h)).
-      assert (Ex : expired_ids s1 = []).
-      { unfold expired_ids. assert (F : forall id, expired_b s1 id = false).
+      assert (Ex : expired_ids M s1 = []).
+      { unfold expired_ids. assert (F : forall id, expired_b M s1 id = false).
         { intro id. unfold expired_b. destruct (aget id (pending s1)) as [e|] eqn:G; [|reflexivity].
           pose proof (tick_post M s h A id e G). unfold s1. rewrite tick_clock. lia. }
         induction (akeys (pending s1)) as [|x l IH]; [reflexivity|]. simpl. rewrite F. exact IH. }
